@@ -30,8 +30,17 @@ Proof.
 Qed.
 Lemma concrete_top : forall p v, concrete p = true -> get_all_top p v = get_all p v.
 Proof. intros p v H. destruct p as [|[] [|]]; try reflexivity; discriminate. Qed.
+Lemma concrete_ends_desc : forall p, concrete p = true -> ends_desc p = false.
+Proof.
+  intros p H. unfold ends_desc. destruct (List.rev p) as [|f t] eqn:E; auto. destruct f; auto. exfalso.
+  assert (Hin : In FDesc p) by (apply in_rev; rewrite E; left; reflexivity).
+  unfold concrete in H. rewrite forallb_forall in H. specialize (H _ Hin). discriminate.
+Qed.
 Lemma get_cget : forall p v, concrete p = true -> get p v = cget p v.
-Proof. intros p v H. unfold get. rewrite concrete_top, get_all_concrete by assumption. destruct (cget p v); reflexivity. Qed.
+Proof.
+  intros p v H. unfold get. rewrite (concrete_ends_desc p H). cbn [andb].
+  rewrite concrete_top, get_all_concrete by assumption. destruct (cget p v); reflexivity.
+Qed.
 Lemma cget_app : forall p q v, cget (p ++ q) v = match cget p v with Some c => cget q c | None => None end.
 Proof.
   induction p as [|f r IH]; intros q v; [reflexivity|]. cbn [app cget].
@@ -235,7 +244,6 @@ Qed.
 
 (* ---------------------------------------------------------------------------------------------- *)
 (* (3) has says whether get finds something, for every path that does not end in a descent *)
-Definition ends_desc (p : path) : bool := match List.rev p with FDesc :: _ => true | _ => false end.
 Lemma existsb_flat_map : forall (A : Type) (f : A -> bool) (g : A -> list jv) l,
   (forall x, In x l -> f x = negb (is_nil (g x))) -> existsb f l = negb (is_nil (flat_map g l)).
 Proof.
@@ -270,6 +278,12 @@ Qed.
 (* ... and not for one that does: ojg's Has("..") on an empty object is false although Get("..") returns it *)
 Theorem has_descent_refuted : mhas [FDesc] (JObj []) = false /\ get_all_top [FDesc] (JObj []) = [JObj []].
 Proof. split; reflexivity. Qed.
+
+(* nor does First (bag-get): for a trailing descent it looks for a child only *)
+Theorem first_descent_refuted :
+  get [FDesc] (JObj []) = None /\ get_all_top [FDesc] (JObj []) = [JObj []] /\
+  get [FDesc] (JInt 7) = None /\ get_all_top [FDesc] (JInt 7) = [JInt 7].
+Proof. repeat split; reflexivity. Qed.
 
 (* has on concrete paths *)
 Lemma mhas_cget : forall p v, concrete p = true -> mhas p v = match cget p v with Some _ => true | None => false end.
